@@ -170,7 +170,7 @@ func (w *World) NewTransport(cfg hc.Config, accs []*accessory.Accessory) error {
 func (w *World) Start() {
 	tr := w.Tr
 	w.started = true
-	w.Sim.Go("transport", func() { tr.Start() })
+	w.Sim.GoNow("transport", func() { tr.Start() })
 	synctest.Wait()
 }
 
